@@ -1,6 +1,1106 @@
-//! C17 -- (stub; see DESIGN.md section 5)
-use crate::util::Args;
+//! C17 -- font-metric arithmetic (binding F for specs/TfmArith.tla).
+//!
+//! Every subcommand records calls of the real `tfm` crate as ndjson call events; the expected
+//! results are recomputed by TLC (Trace_TfmArith.tla).  `c17-sweep` is the one exception in
+//! shape: it checks every integer part x fraction against the *TLC-validated* table of print
+//! events (it only indexes that table) and the parse-back identity, which needs no oracle.
+//!
+//!   c17-table     print events: FixWord Display for (sign, fraction) and (integer part, f>0)
+//!   c17-fix       rt / rtfile / parse events: PL writer and PL reader
+//!   c17-scaled    FixWord::to_scaled
+//!   c17-compress  tfm::compress
+//!   c17-nl        NextLargerProgram::new / get
+//!   c17-sweep     all integer parts x table fractions: Display vs table, text reads back
+//!   c17-one       re-executes the call recorded in one event (replay of a violation)
+use crate::util::{catch, quiet_panics, Args, Out, Rng};
+use serde_json::{json, Value};
+use std::collections::BTreeSet;
+use std::fmt::Write as _;
+use tfm::pl::ast::{Ast, Root, SingleValue};
+use tfm::pl::cst;
+use tfm::pl::CharDisplayFormat;
+use tfm::{Char, FixWord, NextLargerProgram, NextLargerProgramWarning};
 
-pub fn dispatch(_cmd: &str, _args: &Args) -> Option<i32> {
-    None
+pub fn dispatch(cmd: &str, args: &Args) -> Option<i32> {
+    Some(match cmd {
+        "c17-table" => table(args),
+        "c17-fix" => fix(args),
+        "c17-scaled" => scaled(args),
+        "c17-compress" => compress(args),
+        "c17-nl" => nl(args),
+        "c17-sweep" => sweep(args),
+        "c17-one" => one(args),
+        _ => return None,
+    })
+}
+
+const UNITY: i32 = 1 << 20;
+
+/// A call of the code under test that does not return is data too: the watchdog writes the
+/// in-flight call to `<out>.hang` and ends the process with exit code 3 (the driver turns that
+/// into an event with a "panic" field, which no specification action accepts).
+mod watch {
+    use std::sync::atomic::{AtomicU64, Ordering};
+    use std::sync::Mutex;
+    static BEAT: AtomicU64 = AtomicU64::new(0);
+    static CUR: Mutex<String> = Mutex::new(String::new());
+
+    pub fn start(out: Option<&str>, limit_s: f64) {
+        let path = format!("{}.hang", out.unwrap_or("c17"));
+        let _ = std::fs::remove_file(&path);
+        std::thread::spawn(move || {
+            let mut last = BEAT.load(Ordering::Relaxed);
+            let mut idle = 0.0;
+            loop {
+                std::thread::sleep(std::time::Duration::from_millis(250));
+                let b = BEAT.load(Ordering::Relaxed);
+                if b != last {
+                    last = b;
+                    idle = 0.0;
+                    continue;
+                }
+                idle += 0.25;
+                if idle >= limit_s {
+                    let cur = CUR.lock().map(|c| c.clone()).unwrap_or_default();
+                    if !cur.is_empty() {
+                        let _ = std::fs::write(&path, cur);
+                        std::process::exit(3);
+                    }
+                    idle = 0.0;
+                }
+            }
+        });
+    }
+    /// Announce the call about to be made (its inputs as an event without result).
+    pub fn call(desc: impl FnOnce() -> String) {
+        if let Ok(mut c) = CUR.lock() {
+            *c = desc();
+        }
+        BEAT.fetch_add(1, Ordering::Relaxed);
+    }
+    /// The harness is between calls (writing output, generating inputs).
+    pub fn idle() {
+        if let Ok(mut c) = CUR.lock() {
+            c.clear();
+        }
+        BEAT.fetch_add(1, Ordering::Relaxed);
+    }
+}
+
+fn codes(s: &str) -> Vec<u8> {
+    s.bytes().collect()
+}
+
+fn panic_text(p: (String, String)) -> String {
+    format!("{}: {}", p.0, p.1)
+}
+
+// ------------------------------------------------------------------------------------------
+// observation functions
+// ------------------------------------------------------------------------------------------
+
+/// FixWord's Display.
+fn display(v: i32) -> Result<String, String> {
+    catch(|| format!("{}", FixWord(v))).map_err(panic_text)
+}
+
+/// The PL writer: data of the CST node to which a DESIGNUNITS AST node is lowered ("R 1.5").
+fn lower_data(v: i32) -> Result<String, String> {
+    catch(|| {
+        match Root::DesignUnits(SingleValue::from(FixWord(v))).lower(CharDisplayFormat::Default) {
+            cst::Node::Regular(r) => r.data.unwrap_or_default(),
+            cst::Node::Comment(_) => "<comment node>".to_string(),
+        }
+    })
+    .map_err(panic_text)
+}
+
+/// Warnings of the PL reader by kind: "real constant too big", junk after the value, anything else.
+#[derive(Clone, Copy, Default)]
+struct Warn {
+    toobig: u32,
+    junk: u32,
+    other: u32,
+}
+
+impl Warn {
+    fn any(&self) -> bool {
+        self.toobig + self.junk + self.other > 0
+    }
+}
+
+/// The PL reader on `(DESIGNUNITS <data>)`: value and the warnings reported.
+fn read_back(data: &str) -> Result<(i32, Warn), String> {
+    use tfm::pl::ParseWarningKind as K;
+    let src = format!("(DESIGNUNITS {data})\n");
+    let r = catch(|| Ast::from_pl_source_code(&src)).map_err(panic_text)?;
+    let (ast, warnings) = r;
+    let mut w = Warn::default();
+    for x in &warnings {
+        match x.kind {
+            K::DecimalNumberIsTooBig => w.toobig += 1,
+            K::JunkAfterPropertyValue { .. } | K::JunkInsidePropertyList { .. } => w.junk += 1,
+            _ => w.other += 1,
+        }
+    }
+    match ast.0.as_slice() {
+        [Root::DesignUnits(sv)] => Ok((sv.data.0, w)),
+        _ => Err(format!("harness: unexpected AST for {src:?}")),
+    }
+}
+
+// ------------------------------------------------------------------------------------------
+// c17-table: the print events from which the sweep's table is built
+// ------------------------------------------------------------------------------------------
+
+fn print_event(out: &mut Out, v: i32) {
+    if v & 0x3FF == 0 || v & 0xF_FFFF <= 1 {
+        watch::call(|| format!("{{\"fn\":\"print\",\"v\":{v},\"near\":1}}"));
+    }
+    match display(v) {
+        Ok(s) => {
+            let mut line = String::with_capacity(96);
+            write!(line, "{{\"fn\":\"print\",\"v\":{v},\"s\":[").unwrap();
+            for (i, b) in s.bytes().enumerate() {
+                if i > 0 {
+                    line.push(',');
+                }
+                write!(line, "{b}").unwrap();
+            }
+            line.push_str("]}");
+            out.raw(&line);
+        }
+        Err(p) => out.line(&json!({"fn":"print","v":v,"panic":p})),
+    }
+}
+
+/// Fractions (offset + i*stride) mod 2^20, i < 2^20/stride; stride = 1 is all of them.
+fn table_fractions(stride: u32, offset: u32) -> Vec<u32> {
+    let n = (1u32 << 20) / stride;
+    (0..n).map(|i| (offset.wrapping_add(i.wrapping_mul(stride))) & 0xF_FFFF).collect()
+}
+
+pub fn table(args: &Args) -> i32 {
+    quiet_panics();
+    watch::start(args.str("out"), args.num("hang_s", 20.0));
+    let stride: u32 = args.num("stride", 64);
+    let offset: u32 = args.num("offset", 0);
+    let mut out = Out::new(args.str("out"));
+    // (integer part, f > 0): all 4096 x 2
+    for a in 0u32..4096 {
+        for b in 0u32..2 {
+            print_event(&mut out, ((a << 20) | b) as i32);
+        }
+    }
+    // (sign, fraction): integer parts 0 and -1
+    for f in table_fractions(stride, offset) {
+        if f > 1 {
+            print_event(&mut out, f as i32);
+            print_event(&mut out, ((0xFFFu32 << 20) | f) as i32);
+        }
+    }
+    0
+}
+
+// ------------------------------------------------------------------------------------------
+// c17-fix: PL writer / reader events
+// ------------------------------------------------------------------------------------------
+
+fn interesting_patterns(rng: &mut Rng, n: usize) -> Vec<i32> {
+    let mut v: Vec<i32> = vec![0, 1, -1, UNITY, -UNITY, UNITY - 1, 1 - UNITY, i32::MAX, i32::MIN, i32::MIN + 1];
+    for k in 0..31 {
+        for d in [-1i64, 0, 1] {
+            let x = (1i64 << k) + d;
+            v.push(x as i32);
+            v.push((-x) as i32);
+        }
+    }
+    for ip in [0i64, 1, 9, 10, 99, 100, 999, 1000, 2046, 2047] {
+        for f in [0i64, 1, 2, 104857, 104858, 524287, 524288, 524289, 1048574, 1048575] {
+            let x = ip * (UNITY as i64) + f;
+            v.push(x as i32);
+            v.push((-x) as i32);
+        }
+    }
+    while v.len() < n {
+        let x = match rng.below(4) {
+            0 => rng.next() as u32 as i32,                                  // any pattern
+            1 => rng.range(-(16 * UNITY as i64), 16 * UNITY as i64 - 1) as i32, // legal dimension
+            2 => rng.range(-(UNITY as i64), UNITY as i64) as i32,           // |x| <= 1
+            _ => (rng.range(-2048, 2047) * UNITY as i64 + rng.range(0, 40)) as i32,
+        };
+        v.push(x);
+    }
+    v
+}
+
+fn random_decimal(rng: &mut Rng) -> String {
+    let mut s = String::from(if rng.chance(1, 2) { "R" } else { "D" });
+    // blanks and signs (at most one minus sign)
+    let mut minus = rng.chance(1, 2);
+    for _ in 0..rng.below(4) {
+        match rng.below(3) {
+            0 => s.push(' '),
+            1 => s.push('+'),
+            _ => {
+                if minus {
+                    s.push('-');
+                    minus = false;
+                } else {
+                    s.push(' ');
+                }
+            }
+        }
+    }
+    if minus {
+        s.push('-');
+    }
+    // integer digits
+    match rng.below(8) {
+        0 => {}
+        1 => s.push_str("2047"),
+        2 => s.push_str(&format!("{}", rng.range(2040, 2060))),
+        3 => s.push_str(&format!("{:05}", rng.range(0, 99999))),
+        _ => s.push_str(&format!("{}", rng.range(0, 2047))),
+    }
+    // fraction
+    if rng.chance(7, 8) {
+        s.push('.');
+        let nd = match rng.below(6) {
+            0 => 0,
+            1 => rng.below(4),
+            2 => 7,
+            3 => 6,
+            _ => rng.below(11),
+        };
+        let kind = rng.below(5);
+        for i in 0..nd {
+            let d = match kind {
+                0 => 9,
+                1 => 0,
+                2 => {
+                    if i + 1 == nd {
+                        rng.below(10)
+                    } else {
+                        9
+                    }
+                }
+                _ => rng.below(10),
+            };
+            s.push((b'0' + d as u8) as char);
+        }
+    }
+    s
+}
+
+fn rt_event(v: i32) -> Value {
+    watch::call(|| json!({"fn":"rt","v":v}).to_string());
+    match lower_data(v) {
+        Err(p) => json!({"fn":"rt","v":v,"panic":p}),
+        Ok(data) => match read_back(&data) {
+            Err(p) => json!({"fn":"rt","v":v,"s":codes(&data),"panic":p}),
+            Ok((back, w)) => json!({"fn":"rt","v":v,"s":codes(&data),"back":back,"err":w.any() as u8}),
+        },
+    }
+}
+
+fn parse_event(data: &str) -> Value {
+    watch::call(|| json!({"fn":"parse","s":codes(data)}).to_string());
+    match read_back(data) {
+        Err(p) => json!({"fn":"parse","s":codes(data),"panic":p}),
+        Ok((back, w)) => json!({"fn":"parse","s":codes(data),"back":back,"toobig":w.toobig,"junk":w.junk,"other":w.other}),
+    }
+}
+
+pub fn fix(args: &Args) -> i32 {
+    quiet_panics();
+    watch::start(args.str("out"), args.num("hang_s", 20.0));
+    let seed: u64 = args.num("seed", 1);
+    let n: usize = args.num("n", 2000);
+    let nparse: usize = args.num("nparse", 2000);
+    let nfile: usize = args.num("nfile", 20);
+    let mut rng = Rng::new(seed ^ 0xC17F);
+    let mut out = Out::new(args.str("out"));
+
+    // rt: AST lowering, then the text through the PL reader
+    for v in interesting_patterns(&mut rng, n) {
+        out.line(&rt_event(v));
+    }
+
+    // parse: arbitrary decimals through the PL reader
+    let mut fixed: Vec<String> = [
+        "R 0", "R 0.", "R .0", "R .", "R", "R -", "R 1", "R -1", "R 2047", "R 2048", "R -2048", "R 2047.9999995",
+        "R 2047.99999952", "R 2047.9999999", "R -2047.9999999", "R 2047.9999994", "R 2046.9999999", "R 0.00000047",
+        "R 0.00000048", "R 0.0000005", "R 0.0000004", "R 0.5", "R .5", "R -.5", "R 0.9999999", "R 0.99999999999",
+        "R 0.1234567", "R 0.12345678", "R 0.12345679", "R 0.123456789", "D 10", "D 10.0", "R +1.5", "R + 1.5", "R  - 1.5",
+        "R 00001.5", "R 20470", "R 99999", "R 1.", "R 16.0", "R -16.0", "R 15.9999999", "R 0.0000009", "R 0.0000019",
+        "R 0.00000095", "R 0.000001", "R 1000.0000001",
+    ]
+    .iter()
+    .map(|s| s.to_string())
+    .collect();
+    while fixed.len() < nparse {
+        fixed.push(random_decimal(&mut rng));
+    }
+    for data in fixed {
+        out.line(&parse_event(&data));
+    }
+
+    // rtfile: a whole pl::File printed with File::display and read with File::from_pl_source_code
+    for _ in 0..nfile {
+        let mut file = tfm::pl::File::default();
+        let pats = interesting_patterns(&mut rng, 400);
+        let mut pick = |rng: &mut Rng| -> FixWord {
+            let mut v = *rng.pick(&pats);
+            if v == i32::MIN {
+                v += 1
+            }
+            FixWord(v)
+        };
+        for _ in 0..(8 + rng.below(30)) {
+            file.params.push(pick(&mut rng));
+        }
+        for c in 0..=255u8 {
+            if rng.chance(1, 2) {
+                continue;
+            }
+            let d = tfm::pl::CharDimensions {
+                width: Some(pick(&mut rng)),
+                height: if rng.chance(2, 3) { Some(pick(&mut rng)) } else { None },
+                depth: if rng.chance(2, 3) { Some(pick(&mut rng)) } else { None },
+                italic_correction: if rng.chance(1, 2) { Some(pick(&mut rng)) } else { None },
+            };
+            file.char_dimens.insert(Char(c), d);
+        }
+        watch::call(|| json!({"fn":"rtfile","v":0,"where":"a whole pl::File"}).to_string());
+        let r = catch(|| {
+            let text = format!("{}", file.display(3, CharDisplayFormat::Octal));
+            tfm::pl::File::from_pl_source_code(&text)
+        });
+        match r {
+            Err(p) => out.line(&json!({"fn":"rtfile","v":0,"where":"file","panic":panic_text(p)})),
+            Ok((back, warnings)) => {
+                let err = !warnings.is_empty() as u8;
+                let mut emit = |w: &str, a: Option<FixWord>, b: Option<FixWord>| {
+                    if let Some(a) = a {
+                        match b {
+                            Some(b) => out.line(&json!({"fn":"rtfile","v":a.0,"back":b.0,"err":err,"where":w})),
+                            None => out.line(&json!({"fn":"rtfile","v":a.0,"where":w,"panic":"harness: value missing after reading the file back"})),
+                        }
+                    }
+                };
+                // (DESIGNUNITS is never written: TFtoPL output is always in units of the design size)
+                for (i, p) in file.params.iter().enumerate() {
+                    emit("PARAMETER", Some(*p), back.params.get(i).copied());
+                }
+                for (c, d) in &file.char_dimens {
+                    let b = back.char_dimens.get(c).cloned().unwrap_or_default();
+                    emit("CHARWD", d.width, b.width);
+                    emit("CHARHT", d.height, b.height);
+                    emit("CHARDP", d.depth, b.depth);
+                    emit("CHARIC", d.italic_correction, b.italic_correction);
+                }
+            }
+        }
+    }
+    0
+}
+
+// ------------------------------------------------------------------------------------------
+// c17-scaled
+// ------------------------------------------------------------------------------------------
+
+pub fn scaled(args: &Args) -> i32 {
+    quiet_panics();
+    watch::start(args.str("out"), args.num("hang_s", 20.0));
+    let seed: u64 = args.num("seed", 1);
+    let n: usize = args.num("n", 20000);
+    let mut rng = Rng::new(seed ^ 0xC175);
+    let mut out = Out::new(args.str("out"));
+    let lim: i64 = 1 << 24; // |v| < 16.0: the first byte is 0 or 255 (TeX 571)
+    let mut vs: Vec<i64> = vec![0, 1, -1, lim - 1, -lim, -lim + 1, UNITY as i64, -(UNITY as i64)];
+    for k in 0..24 {
+        for d in [-1i64, 0, 1] {
+            let x = (1i64 << k) + d;
+            if x < lim {
+                vs.push(x);
+                vs.push(-x);
+            }
+        }
+    }
+    let mut dss: Vec<i64> = vec![16, 17, 31, 32, UNITY as i64, 10 * UNITY as i64, i32::MAX as i64, 5 * UNITY as i64 + 7];
+    for k in 4..31 {
+        for d in [-1i64, 0, 1] {
+            let x = (1i64 << k) + d;
+            if (16..=i32::MAX as i64).contains(&x) {
+                dss.push(x);
+            }
+        }
+    }
+    let mut emit = |v: i64, ds: i64| {
+        let (v, ds) = (v as i32, ds as i32);
+        watch::call(|| json!({"fn":"scaled","v":v,"ds":ds}).to_string());
+        match catch(|| FixWord(v).to_scaled(FixWord(ds))) {
+            Ok(r) => out.line(&json!({"fn":"scaled","v":v,"ds":ds,"r":r.0})),
+            Err(p) => out.line(&json!({"fn":"scaled","v":v,"ds":ds,"panic":panic_text(p)})),
+        }
+    };
+    for &v in &vs {
+        for &ds in &dss {
+            emit(v, ds);
+        }
+    }
+    for _ in 0..n {
+        let v = match rng.below(4) {
+            0 => rng.range(-lim, lim - 1),
+            1 => rng.range(-2 * UNITY as i64, 2 * UNITY as i64),
+            2 => *rng.pick(&vs),
+            _ => rng.range(-lim, lim - 1) & !0xFF, // low byte zero
+        };
+        let ds = match rng.below(5) {
+            0 => rng.range(16, i32::MAX as i64),
+            1 => rng.range(UNITY as i64, 20 * UNITY as i64),
+            2 => *rng.pick(&dss),
+            3 => rng.range(1, 2047) * UNITY as i64,
+            _ => 1i64 << rng.range(4, 30) | rng.range(0, 1 << 12),
+        };
+        emit(v, ds.clamp(16, i32::MAX as i64));
+    }
+    0
+}
+
+// ------------------------------------------------------------------------------------------
+// c17-compress
+// ------------------------------------------------------------------------------------------
+
+fn compress_event(out: &mut Out, vals: &[i32], m: u8) {
+    let input: Vec<FixWord> = vals.iter().map(|&v| FixWord(v)).collect();
+    let sv: Vec<i32> = vals.iter().copied().collect::<BTreeSet<i32>>().into_iter().collect();
+    watch::call(|| json!({"fn":"compress","vals":vals,"m":m}).to_string());
+    let r = catch(|| tfm::compress(&input, m));
+    watch::idle();
+    match r {
+        Err(p) => out.line(&json!({"fn":"compress","vals":vals,"m":m,"panic":panic_text(p)})),
+        Ok((res, map)) => {
+            let res: Vec<i32> = res.iter().map(|f| f.0).collect();
+            let cls: Vec<u8> = sv.iter().map(|v| map.get(&FixWord(*v)).map(|i| i.get()).unwrap_or(0)).collect();
+            out.line(&json!({"fn":"compress","vals":vals,"m":m,"sv":sv,"cls":cls,"res":res}));
+        }
+    }
+}
+
+fn gen_values(rng: &mut Rng, maxlen: usize) -> Vec<i32> {
+    let len = match rng.below(4) {
+        0 => rng.range(1, 20) as usize,
+        1 => rng.range(1, maxlen as i64) as usize,
+        2 => rng.range((maxlen as i64 / 2).max(1), maxlen as i64) as usize,
+        _ => rng.range(1, 64) as usize,
+    };
+    let legal: i64 = 1 << 24;
+    let big: i64 = 1 << 28;
+    let mut v: Vec<i64> = Vec::with_capacity(len);
+    match rng.below(9) {
+        0 => {
+            // uniform over the legal range of font dimensions
+            for _ in 0..len {
+                v.push(rng.range(-legal, legal - 1));
+            }
+        }
+        1 => {
+            // arithmetic progression: all gaps equal (every tolerance is a tie), optional jitter
+            let step = rng.range(1, 2000);
+            let jitter = rng.range(0, 2);
+            let start = rng.range(-legal / 2, 0);
+            for i in 0..len as i64 {
+                v.push(start + i * step + rng.range(0, jitter));
+            }
+        }
+        2 => {
+            // clusters
+            let k = rng.range(1, 40);
+            let centres: Vec<i64> = (0..k).map(|_| rng.range(-legal / 2, legal / 2)).collect();
+            let spread = 1i64 << rng.range(0, 16);
+            for _ in 0..len {
+                v.push(*rng.pick(&centres) + rng.range(-spread, spread));
+            }
+        }
+        3 => {
+            // small integers: many duplicates and unit gaps
+            let r = rng.range(1, 400);
+            let lo = rng.range(-r, 0);
+            for _ in 0..len {
+                v.push(rng.range(lo, lo + r));
+            }
+        }
+        4 => {
+            // geometric gaps
+            let mut x = rng.range(-1000, 1000);
+            for i in 0..len {
+                v.push(x);
+                x += 1i64 << (i % 22);
+                if x >= big {
+                    x = rng.range(-1000, 1000)
+                }
+            }
+        }
+        5 => {
+            // typical heights/depths: multiples of a design unit with some noise, non-negative
+            let unit = rng.range(1, 5000);
+            for _ in 0..len {
+                v.push(rng.range(0, 700) * unit + if rng.chance(1, 4) { rng.range(-2, 2) } else { 0 });
+            }
+        }
+        6 => {
+            // wide range including values beyond 16.0
+            for _ in 0..len {
+                v.push(rng.range(-big, big));
+            }
+        }
+        7 => {
+            // two scales: fine structure inside coarse groups, gaps adversarially close
+            let groups = rng.range(2, 30);
+            let coarse = rng.range(1000, 100000);
+            for _ in 0..len {
+                let g = rng.range(0, groups);
+                v.push(g * coarse + rng.range(0, 3) * (coarse / 7) + rng.range(0, 1));
+            }
+        }
+        _ => {
+            // odd / even tolerance boundaries: pairs at distance d and d+1
+            let d = rng.range(1, 50);
+            let mut x = rng.range(-5000, 0);
+            for i in 0..len {
+                v.push(x);
+                x += if i % 2 == 0 { d + rng.range(0, 1) } else { 3 * d + rng.range(0, 2) };
+            }
+        }
+    }
+    let mut v: Vec<i32> = v.into_iter().map(|x| x.clamp(-big, big) as i32).collect();
+    // shuffle, and repeat some values (the input is a multiset in arbitrary order)
+    for i in (1..v.len()).rev() {
+        let j = rng.below(i as u64 + 1) as usize;
+        v.swap(i, j);
+    }
+    if rng.chance(1, 2) && v.len() > 1 {
+        let k = rng.below(v.len() as u64 / 2 + 1) as usize;
+        for i in 0..k {
+            let j = rng.below(v.len() as u64) as usize;
+            v[i] = v[j];
+        }
+    }
+    v
+}
+
+pub fn compress(args: &Args) -> i32 {
+    quiet_panics();
+    watch::start(args.str("out"), args.num("hang_s", 20.0));
+    let seed: u64 = args.num("seed", 1);
+    let n: usize = args.num("n", 1000);
+    let maxlen: usize = args.num("maxlen", 300);
+    let small: u32 = args.num("small", 8);
+    let mut rng = Rng::new(seed ^ 0xC17C);
+    let mut out = Out::new(args.str("out"));
+    // the repository's own unit tests (they must be accepted: they validate the specification)
+    let one = UNITY;
+    for (vals, m) in [
+        (vec![], 1u8),
+        (vec![2 * one, one], 2),
+        (vec![one, one], 1),
+        (vec![one, 2 * one], 1),
+        (vec![one, 2 * one, 200 * one, 201 * one], 2),
+        (vec![1, 3], 1),
+        (vec![0, 2], 1),
+        (vec![1, 4], 1),
+        (vec![1, 2], 1),
+    ] {
+        compress_event(&mut out, &vals, m);
+    }
+    // exhaustive: every non-empty subset of {-3..small-4} scaled by 1 and by 3, every limit
+    for scale in [1i32, 3] {
+        for mask in 1u32..(1u32 << small) {
+            let vals: Vec<i32> = (0..small).filter(|b| mask >> b & 1 == 1).map(|b| (b as i32 - 3) * scale).collect();
+            for m in 1..=(vals.len() as u8) {
+                compress_event(&mut out, &vals, m);
+            }
+        }
+    }
+    // generated multisets
+    for i in 0..n {
+        let vals = gen_values(&mut rng, maxlen);
+        let m: u8 = match i % 5 {
+            0 => 15,
+            1 => 63,
+            2 => 255,
+            3 => rng.range(1, 255) as u8,
+            _ => {
+                // a limit close to the number of distinct values, or very small
+                let d = vals.iter().collect::<BTreeSet<_>>().len() as i64;
+                if rng.chance(1, 2) {
+                    (d - rng.range(1, 4)).clamp(1, 255) as u8
+                } else {
+                    rng.range(1, 4) as u8
+                }
+            }
+        };
+        compress_event(&mut out, &vals, m);
+    }
+    0
+}
+
+// ------------------------------------------------------------------------------------------
+// c17-nl
+// ------------------------------------------------------------------------------------------
+
+fn nl_event(out: &mut Out, edges: &[(u8, u8)], absent: &BTreeSet<u8>, drop: bool, probe: &[u8]) {
+    watch::call(|| {
+        let e: Vec<[u8; 2]> = edges.iter().map(|&(a, b)| [a, b]).collect();
+        let a: Vec<u8> = absent.iter().copied().collect();
+        json!({"fn":"nl","edges":e,"absent":a,"drop":drop as u8,"probe":probe}).to_string()
+    });
+    let r = catch(|| {
+        let (prog, warnings) = NextLargerProgram::new(
+            edges.iter().map(|&(a, b)| (Char(a), Char(b))),
+            |c| !absent.contains(&c.0),
+            drop,
+        );
+        let chains: Vec<Vec<u8>> = probe
+            .iter()
+            .map(|&c| prog.get(Char(c)).take(1000).map(|c| c.0).collect())
+            .collect();
+        (chains, warnings)
+    });
+    watch::idle();
+    let edges_j: Vec<[u8; 2]> = edges.iter().map(|&(a, b)| [a, b]).collect();
+    let absent_j: Vec<u8> = absent.iter().copied().collect();
+    match r {
+        Err(p) => out.line(&json!({"fn":"nl","edges":edges_j,"absent":absent_j,"drop":drop as u8,"panic":panic_text(p)})),
+        Ok((chains, warnings)) => {
+            let mut loops: Vec<[u8; 2]> = vec![];
+            let mut nonex: Vec<[u8; 2]> = vec![];
+            for w in warnings {
+                match w {
+                    NextLargerProgramWarning::InfiniteLoop { original, next_larger } => loops.push([original.0, next_larger.0]),
+                    NextLargerProgramWarning::NonExistentCharacter { original, next_larger } => nonex.push([original.0, next_larger.0]),
+                }
+            }
+            out.line(&json!({"fn":"nl","edges":edges_j,"absent":absent_j,"drop":drop as u8,"probe":probe,
+                             "chains":chains,"loops":loops,"nonex":nonex}));
+        }
+    }
+}
+
+/// The same links through the two pipelines that use the program: a tfm::File validated the way
+/// TFtoPL does (`validate_and_fix`, links to missing characters dropped) and a PL source read the
+/// way PLtoTF does (`pl::File::from_pl_source_code`, missing characters created).  Observed: the
+/// list tags that remain.
+fn nltags_event(out: &mut Out, path: &str, edges: &[(u8, u8)], absent: &BTreeSet<u8>) {
+    let edges_j: Vec<[u8; 2]> = edges.iter().map(|&(a, b)| [a, b]).collect();
+    let absent_j: Vec<u8> = absent.iter().copied().collect();
+    watch::call(|| json!({"fn":"nltags","path":path,"edges":edges_j,"absent":absent_j}).to_string());
+    let present: BTreeSet<u8> = edges.iter().flat_map(|&(a, b)| [a, b]).filter(|c| !absent.contains(c)).collect();
+    let r = catch(|| {
+        if path == "tfm" {
+            let mut file = tfm::File::default();
+            file.widths = vec![FixWord::ZERO, FixWord::ONE];
+            file.smallest_char = Char(present.iter().next().copied().unwrap_or(1));
+            for &c in &present {
+                file.char_dimens.insert(
+                    Char(c),
+                    tfm::CharDimensions {
+                        width_index: tfm::WidthIndex::Valid(1.try_into().unwrap()),
+                        height_index: 0,
+                        depth_index: 0,
+                        italic_index: 0,
+                    },
+                );
+            }
+            for &(a, b) in edges {
+                file.char_tags.insert(Char(a), tfm::CharTag::List(Char(b)));
+            }
+            let _ = file.validate_and_fix();
+            file.char_tags.iter().filter_map(|(c, t)| t.list().map(|n| [c.0, n.0])).collect::<Vec<[u8; 2]>>()
+        } else {
+            let links: std::collections::BTreeMap<u8, u8> = edges.iter().copied().collect();
+            let mut text = String::new();
+            for &c in &present {
+                write!(text, "(CHARACTER O {c:o} (CHARWD R 1.0)").unwrap();
+                if let Some(n) = links.get(&c) {
+                    write!(text, " (NEXTLARGER O {n:o})").unwrap();
+                }
+                text.push_str(")\n");
+            }
+            let (file, _) = tfm::pl::File::from_pl_source_code(&text);
+            file.char_tags.iter().filter_map(|(c, t)| t.list().map(|n| [c.0, n.0])).collect::<Vec<[u8; 2]>>()
+        }
+    });
+    watch::idle();
+    match r {
+        Ok(tags) => out.line(&json!({"fn":"nltags","path":path,"edges":edges_j,"absent":absent_j,"tags":tags})),
+        Err(p) => out.line(&json!({"fn":"nltags","path":path,"edges":edges_j,"absent":absent_j,"panic":panic_text(p)})),
+    }
+}
+
+pub fn nl(args: &Args) -> i32 {
+    quiet_panics();
+    watch::start(args.str("out"), args.num("hang_s", 20.0));
+    let seed: u64 = args.num("seed", 1);
+    let k: usize = args.num("k", 5);
+    let ka: usize = args.num("ka", 4);
+    let n: usize = args.num("n", 100);
+    let mut rng = Rng::new(seed ^ 0xC171);
+    let mut out = Out::new(args.str("out"));
+    let none = BTreeSet::new();
+
+    // every functional graph on k characters, under two order-preserving embeddings into 0..255
+    let spread: Vec<u8> = vec![7, 65, 127, 128, 200, 254, 255];
+    for emb in 0..2 {
+        let chars: Vec<u8> = if emb == 0 { (0..k as u8).collect() } else { spread[spread.len() - k..].to_vec() };
+        let mut probe = chars.clone();
+        probe.push(if emb == 0 { 9 } else { 0 });
+        let total = (k as u64 + 1).pow(k as u32);
+        for code in 0..total {
+            let mut c = code;
+            let mut edges = vec![];
+            for i in 0..k {
+                let t = (c % (k as u64 + 1)) as usize;
+                c /= k as u64 + 1;
+                if t > 0 {
+                    edges.push((chars[i], chars[t - 1]));
+                }
+            }
+            if (code + emb as u64) % 3 == 0 {
+                edges.reverse();
+            }
+            nl_event(&mut out, &edges, &none, true, &probe);
+            if !edges.is_empty() && code % 5 == emb as u64 {
+                nltags_event(&mut out, if code % 2 == 0 { "tfm" } else { "pl" }, &edges, &none);
+            }
+        }
+    }
+    // non-existent characters: every functional graph on ka characters, every set of absent
+    // characters among those without a link of their own, both modes
+    {
+        let chars: Vec<u8> = (0..ka as u8).map(|i| 10 * i + 3).collect();
+        let mut probe = chars.clone();
+        probe.push(0);
+        let total = (ka as u64 + 1).pow(ka as u32);
+        for code in 0..total {
+            let mut c = code;
+            let mut edges = vec![];
+            let mut has_link = vec![false; ka];
+            for i in 0..ka {
+                let t = (c % (ka as u64 + 1)) as usize;
+                c /= ka as u64 + 1;
+                if t > 0 {
+                    edges.push((chars[i], chars[t - 1]));
+                    has_link[i] = true;
+                }
+            }
+            let free: Vec<u8> = (0..ka).filter(|&i| !has_link[i]).map(|i| chars[i]).collect();
+            for mask in 1u32..(1 << free.len()) {
+                let absent: BTreeSet<u8> = free.iter().enumerate().filter(|(i, _)| mask >> i & 1 == 1).map(|(_, &c)| c).collect();
+                for drop in [false, true] {
+                    nl_event(&mut out, &edges, &absent, drop, &probe);
+                }
+                if (code + mask as u64) % 4 == 0 {
+                    nltags_event(&mut out, "tfm", &edges, &absent);
+                    nltags_event(&mut out, "pl", &edges, &absent);
+                }
+            }
+        }
+    }
+    // the repository's pinned example: one cycle through all 256 characters
+    let all: Vec<u8> = (0..=255).collect();
+    let ring: Vec<(u8, u8)> = (0..=255u8).map(|u| (u, u.wrapping_add(1))).collect();
+    nl_event(&mut out, &ring, &none, true, &all);
+    // random functional graphs on up to 256 characters
+    for i in 0..n {
+        let density = [30u64, 70, 100][i % 3];
+        let shape = rng.below(5);
+        let mut edges: Vec<(u8, u8)> = vec![];
+        let perm: Vec<u8> = {
+            let mut p: Vec<u8> = (0..=255).collect();
+            for i in (1..256).rev() {
+                let j = rng.below(i as u64 + 1) as usize;
+                p.swap(i, j);
+            }
+            p
+        };
+        for c in 0..=255u8 {
+            if !rng.chance(density, 100) {
+                continue;
+            }
+            let t = match shape {
+                0 => rng.below(256) as u8,                       // random mapping: rho shapes
+                1 => perm[c as usize],                           // permutation: disjoint cycles only
+                2 => c.wrapping_add(rng.range(1, 3) as u8),      // mostly increasing, wraps into cycles
+                3 => (c / 8) * 8 + rng.below(8) as u8,           // many small components
+                _ => {
+                    if rng.chance(1, 10) {
+                        c
+                    } else {
+                        rng.below(256) as u8
+                    }
+                } // self loops
+            };
+            edges.push((c, t));
+        }
+        for i in (1..edges.len()).rev() {
+            let j = rng.below(i as u64 + 1) as usize;
+            edges.swap(i, j);
+        }
+        let mut absent = BTreeSet::new();
+        if i % 4 == 3 {
+            let linked: BTreeSet<u8> = edges.iter().map(|e| e.0).collect();
+            for c in 0..=255u8 {
+                if !linked.contains(&c) && rng.chance(1, 3) {
+                    absent.insert(c);
+                }
+            }
+        }
+        nl_event(&mut out, &edges, &absent, i % 8 != 7, &all);
+        nltags_event(&mut out, if i % 2 == 0 { "tfm" } else { "pl" }, &edges, &absent);
+    }
+    0
+}
+
+// ------------------------------------------------------------------------------------------
+// c17-sweep: integer parts x fractions against the TLC-validated table
+// ------------------------------------------------------------------------------------------
+
+#[derive(Clone, Copy, Default)]
+struct Short {
+    len: u8,
+    b: [u8; 8],
+}
+
+impl Short {
+    fn new(s: &[u8]) -> Option<Short> {
+        if s.is_empty() || s.len() > 8 {
+            return None;
+        }
+        let mut b = [0u8; 8];
+        b[..s.len()].copy_from_slice(s);
+        Some(Short { len: s.len() as u8, b })
+    }
+    fn bytes(&self) -> &[u8] {
+        &self.b[..self.len as usize]
+    }
+}
+
+struct Table {
+    prefix: Vec<[Short; 2]>, // [integer part bits][f > 0]: text up to and including '.'
+    pos: Vec<Short>,         // [low 20 bits]: fraction digits of a non-negative pattern
+    neg: Vec<Short>,         // [low 20 bits]: fraction digits of a negative pattern
+    fracs: Vec<u32>,         // fractions for which both pos and neg are known
+}
+
+fn load_table(path: &str) -> Result<Table, String> {
+    use std::io::BufRead;
+    let mut t = Table {
+        prefix: vec![[Short::default(); 2]; 4096],
+        pos: vec![Short::default(); 1 << 20],
+        neg: vec![Short::default(); 1 << 20],
+        fracs: vec![],
+    };
+    let f = std::fs::File::open(path).map_err(|e| format!("{path}: {e}"))?;
+    for line in std::io::BufReader::new(f).lines() {
+        let line = line.map_err(|e| e.to_string())?;
+        let e: Value = serde_json::from_str(&line).map_err(|e| e.to_string())?;
+        if e["fn"] != "print" || e.get("panic").is_some() {
+            continue;
+        }
+        let v = e["v"].as_i64().ok_or("v")? as i32 as u32;
+        let s: Vec<u8> = e["s"].as_array().ok_or("s")?.iter().map(|x| x.as_u64().unwrap_or(0) as u8).collect();
+        let dot = s.iter().position(|&c| c == b'.').ok_or("no decimal point in table entry")?;
+        let (a, f) = ((v >> 20) as usize, (v & 0xF_FFFF) as usize);
+        let pre = Short::new(&s[..=dot]).ok_or("prefix length")?;
+        let suf = Short::new(&s[dot + 1..]).ok_or("suffix length")?;
+        if f <= 1 {
+            t.prefix[a][f] = pre;
+        }
+        if a == 0 {
+            t.pos[f] = suf;
+        }
+        if a == 0xFFF {
+            t.neg[f] = suf;
+        }
+    }
+    for a in 0..4096 {
+        if t.prefix[a][0].len == 0 || t.prefix[a][1].len == 0 {
+            return Err(format!("table has no entry for integer part bits {a}"));
+        }
+    }
+    for f in 0..(1u32 << 20) {
+        if t.pos[f as usize].len > 0 && t.neg[f as usize].len > 0 {
+            t.fracs.push(f);
+        }
+    }
+    Ok(t)
+}
+
+pub fn sweep(args: &Args) -> i32 {
+    quiet_panics();
+    let path = args.req("table");
+    let threads: usize = args.num("threads", 8);
+    let budget: f64 = args.num("budget_s", 600.0);
+    let max_units: usize = args.num("units", usize::MAX);
+    let mult: u32 = args.num("mult", 0x9E37_79B1u32);
+    let mut out = Out::new(args.str("out"));
+    let t = match load_table(path) {
+        Ok(t) => t,
+        Err(e) => {
+            eprintln!("cannot load the table: {e}");
+            return 2;
+        }
+    };
+    let mut t = t;
+    // deterministic scramble of the order in which fractions are visited
+    t.fracs.sort_by_key(|f| f.wrapping_mul(mult) & 0xF_FFFF);
+    let nf = t.fracs.len();
+    let units = nf.min(max_units);
+    let start = std::time::Instant::now();
+    let t = &t;
+    // unit u = the fraction t.fracs[u] under all 4096 integer parts
+    let results: Vec<(u64, u64, Vec<Value>)> = std::thread::scope(|s| {
+        let hs: Vec<_> = (0..threads)
+            .map(|tid| {
+                s.spawn(move || {
+                    let mut done_units = 0u64;
+                    let mut checked = 0u64;
+                    let mut bad: Vec<Value> = vec![];
+                    let mut text = String::with_capacity(4096 * 32);
+                    let mut shown: Vec<(usize, usize)> = Vec::with_capacity(4096);
+                    let mut u = tid;
+                    while u < units {
+                        if start.elapsed().as_secs_f64() > budget {
+                            break;
+                        }
+                        let f = t.fracs[u];
+                        text.clear();
+                        shown.clear();
+                        let r = catch(|| {
+                            for a in 0u32..4096 {
+                                let v = ((a << 20) | f) as i32;
+                                text.push_str("(DESIGNUNITS R ");
+                                let b = text.len();
+                                write!(text, "{}", FixWord(v)).unwrap();
+                                shown.push((b, text.len()));
+                                text.push_str(")\n");
+                            }
+                            Ast::from_pl_source_code(&text)
+                        });
+                        match r {
+                            Err(p) => bad.push(json!({"kind":"panic","f":f,"panic":panic_text(p)})),
+                            Ok((ast, warnings)) => {
+                                if ast.0.len() != 4096 {
+                                    bad.push(json!({"kind":"ast-shape","f":f,"roots":ast.0.len()}));
+                                }
+                                // every pattern except "80000000 must read back without any warning
+                                let expect_warn = f == 0;
+                                if warnings.is_empty() == expect_warn && bad.len() < 20 {
+                                    bad.push(json!({"kind":"warnings","f":f,"n":warnings.len()}));
+                                }
+                                for (a, root) in ast.0.iter().enumerate() {
+                                    let v = (((a as u32) << 20) | f) as i32;
+                                    let (b, e) = shown[a];
+                                    let got = &text.as_bytes()[b..e];
+                                    let pre = t.prefix[a][(f != 0) as usize];
+                                    let suf = if a >= 2048 { t.neg[f as usize] } else { t.pos[f as usize] };
+                                    let ok_text = got.len() == pre.bytes().len() + suf.bytes().len()
+                                        && got.starts_with(pre.bytes())
+                                        && got.ends_with(suf.bytes());
+                                    if !ok_text && bad.len() < 20 {
+                                        bad.push(json!({"kind":"display","v":v,"got":String::from_utf8_lossy(got),
+                                            "table":format!("{}{}", String::from_utf8_lossy(pre.bytes()), String::from_utf8_lossy(suf.bytes()))}));
+                                    }
+                                    let back = match root {
+                                        Root::DesignUnits(sv) => Some(sv.data.0),
+                                        _ => None,
+                                    };
+                                    if v != i32::MIN && back != Some(v) && bad.len() < 20 {
+                                        bad.push(json!({"kind":"readback","v":v,"text":String::from_utf8_lossy(got),"back":back}));
+                                    }
+                                    checked += 1;
+                                }
+                            }
+                        }
+                        done_units += 1;
+                        u += threads;
+                    }
+                    (done_units, checked, bad)
+                })
+            })
+            .collect();
+        hs.into_iter().map(|h| h.join().unwrap()).collect()
+    });
+    let mut done = 0;
+    let mut checked = 0;
+    for (d, c, bad) in results {
+        done += d;
+        checked += c;
+        for b in bad {
+            out.line(&json!({"kind":"violation","detail":b}));
+        }
+    }
+    out.line(&json!({"kind":"summary","table_fractions":nf,"units_requested":units,"units_done":done,
+        "patterns_checked":checked,"integer_parts":4096,"threads":threads,"wall_s":start.elapsed().as_secs_f64()}));
+    0
+}
+
+// ------------------------------------------------------------------------------------------
+// c17-one: replay
+// ------------------------------------------------------------------------------------------
+
+pub fn one(args: &Args) -> i32 {
+    quiet_panics();
+    watch::start(args.str("out"), args.num("hang_s", 20.0));
+    let text = std::fs::read_to_string(args.req("in")).expect("read event");
+    let e: Value = serde_json::from_str(&text).expect("event json");
+    let mut out = Out::new(args.str("out"));
+    let int = |k: &str| e[k].as_i64().unwrap_or(0);
+    let bytes = |k: &str| -> Vec<u8> {
+        e[k].as_array().map(|a| a.iter().map(|x| x.as_u64().unwrap_or(0) as u8).collect()).unwrap_or_default()
+    };
+    match e["fn"].as_str().unwrap_or("") {
+        "print" => print_event(&mut out, int("v") as i32),
+        "rt" | "rtfile" => out.line(&rt_event(int("v") as i32)),
+        "parse" => out.line(&parse_event(&String::from_utf8_lossy(&bytes("s")))),
+        "scaled" => {
+            let (v, ds) = (int("v") as i32, int("ds") as i32);
+            match catch(|| FixWord(v).to_scaled(FixWord(ds))) {
+                Ok(r) => out.line(&json!({"fn":"scaled","v":v,"ds":ds,"r":r.0})),
+                Err(p) => out.line(&json!({"fn":"scaled","v":v,"ds":ds,"panic":panic_text(p)})),
+            }
+        }
+        "compress" => {
+            let vals: Vec<i32> = e["vals"].as_array().map(|a| a.iter().map(|x| x.as_i64().unwrap_or(0) as i32).collect()).unwrap_or_default();
+            compress_event(&mut out, &vals, int("m") as u8);
+        }
+        "nltags" => {
+            let edges: Vec<(u8, u8)> = e["edges"]
+                .as_array()
+                .map(|a| a.iter().map(|p| (p[0].as_u64().unwrap_or(0) as u8, p[1].as_u64().unwrap_or(0) as u8)).collect())
+                .unwrap_or_default();
+            let absent: BTreeSet<u8> = bytes("absent").into_iter().collect();
+            nltags_event(&mut out, e["path"].as_str().unwrap_or("tfm"), &edges, &absent);
+        }
+        "nl" => {
+            let edges: Vec<(u8, u8)> = e["edges"]
+                .as_array()
+                .map(|a| a.iter().map(|p| (p[0].as_u64().unwrap_or(0) as u8, p[1].as_u64().unwrap_or(0) as u8)).collect())
+                .unwrap_or_default();
+            let absent: BTreeSet<u8> = bytes("absent").into_iter().collect();
+            let mut probe = bytes("probe");
+            if probe.is_empty() {
+                probe = (0..=255).collect();
+            }
+            nl_event(&mut out, &edges, &absent, int("drop") == 1, &probe);
+        }
+        other => {
+            eprintln!("cannot replay an event of kind {other:?}");
+            return 2;
+        }
+    }
+    0
 }
